@@ -459,6 +459,9 @@ def run(chk):
     ]
     chk.sample(traces[0]); chk.sample(traces[nsmall - 1]); chk.sample(traces[-1])
     chk.validate("LoadAppTrace", "LoadAppTrace.cfg", traces, key_of=key_of, batch=1500)
+    # job R: behaviours of LoadAppDesign chosen by TLC's simulator, replayed through the real loader
+    from . import c09_replay
+    c09_replay.run_replay(chk)
 
 
 # ---------------------------------------------------------------------------------------------- self-test
